@@ -16,6 +16,14 @@ let sz z = string_of_int (int_of_z z)
 let szl l = String.concat " " (List.map sz l)
 let sb b = if b then "1" else "0"
 
+let s6 = function None -> "None" | Some (((((a, b), c), d), e), f) -> String.concat " " (List.map sz [a; b; c; d; e; f])
+let atype_of = function 0 -> Front | 1 -> RightmostFront | 2 -> Back | 3 -> Anywhere | 4 -> NonInternalFront
+  | 5 -> NonInternalBack | 6 -> Prefix | 7 -> Suffix | _ -> failwith "adapter type"
+let adapter_of (a : string array) =
+  let f = Array.of_list (ints a.(2)) in
+  { a_type = atype_of (List.hd (ints a.(0))); a_seq = zl a.(1); a_wref = f.(0) <> 0; a_wq = f.(1) <> 0;
+    a_indels = f.(2) <> 0; a_min_overlap = z1 a.(3); a_force_anywhere = f.(3) <> 0 }
+
 let run cmd (a : string array) : string =
   match cmd with
   | "qtrim" -> let (s, e) = quality_trim_index (zl a.(0)) (z1 a.(1)) (z1 a.(2)) (z1 a.(3)) in sz s ^ " " ^ sz e
@@ -25,6 +33,18 @@ let run cmd (a : string array) : string =
   | "ncount" -> sz (n_count (zl a.(0)))
   | "qtrimmer" -> let ((s, q), t) = quality_trimmer (z1 a.(2)) (z1 a.(3)) (z1 a.(4)) (zl a.(0), zl a.(1)) in szl s ^ "|" ^ szl q ^ "|" ^ sz t
   | "nstrimmer" -> let ((s, q), t) = nextseq_trimmer (z1 a.(2)) (z1 a.(3)) (zl a.(0), zl a.(1)) in szl s ^ "|" ^ szl q ^ "|" ^ sz t
+  (* locate ref|query|thr table|sir siq stir stiq wref wq|indel_cost|min_overlap *)
+  | "locate" ->
+      let f = Array.of_list (ints a.(3)) in
+      let cfg = { start_in_ref = f.(0) <> 0; start_in_query = f.(1) <> 0; stop_in_ref = f.(2) <> 0; stop_in_query = f.(3) <> 0;
+                  wildcard_ref = f.(4) <> 0; indel_cost = z1 a.(4); min_overlap = z1 a.(5) } in
+      s6 (locate (thr_of (zl a.(2))) cfg (f.(5) <> 0) (zl a.(0)) (zl a.(1)))
+  (* matchto type|seq|wref wq indels force|min_overlap|thr table|read *)
+  | "matchto" ->
+      let ad = adapter_of a in
+      (match match_to (thr_of (zl a.(4))) ad (zl a.(5)) with
+       | None -> "None"
+       | Some m -> String.concat " " (List.map sz [m.astart; m.astop; m.rstart; m.rstop; m.mscore; m.merrors; m.mside]))
   | _ -> failwith ("unknown command " ^ cmd)
 
 let () =
